@@ -548,13 +548,11 @@ Proof.
     destruct (spec_slice st sl) as [[h r]|e] eqn:Ef; [|apply Same; intros; discriminate].
     apply spec_slice_cases in Ef as [Hx Hc]. cbn [fst snd]. apply (Read h); try reflexivity; auto.
     destruct Hc as [Hf|Ho]; auto.
-  - (* Uncache *)
-    cbn [fst snd]. split; [intros r E; discriminate|]. split; [exists []; now rewrite app_nil_r|]. reflexivity.
   - (* EditLast *)
     destruct (s_last st) as [k|] eqn:El; [|apply Same; intros; discriminate].
     destruct (o_wr (get_obj (s_heap st) k)); [|apply Same; intros; discriminate].
     cbn [fst snd]. split; [intros r E; discriminate|]. split; [exists []; now rewrite app_nil_r|].
-    intros b Hb Hne. cbn. apply nth_upd_other. apply (Hne eq_refl k eq_refl).
+    intros b Hb Hne. cbn. apply nth_upd_other. apply (Hne eq_refl k El).
   - (* GetData *)
     destruct (s_expired st); [apply Same; intros; discriminate|].
     destruct (s_dcache st) as [k|] eqn:Ed.
@@ -578,7 +576,7 @@ Definition alias_rule (st : cstate) (o : op) (st' : cstate) (x : out) : Prop :=
 
 Lemma abs_kind_arr d f own : abs_kind d f = SArr own -> d = DArr own.
 Proof.
-  destruct d as [o|p]; cbn; [intros E; inversion E; reflexivity|].
+  destruct d as [o|p]; unfold abs_kind; [intros E; inversion E; reflexivity|].
   destruct (length (f_vals f) <? size (p_shape p))%nat; [discriminate|]. destruct (scaledp p); discriminate.
 Qed.
 
@@ -595,4 +593,222 @@ Proof.
     + right; right; left. exact Hd.
     + right; right; right. exists own. split; [|exact Hb]. now apply (abs_kind_arr _ (c_file st)).
   - apply (s_all_lift (fun _ => True)); [|exact I]. intros s o _. split; [apply s_alias_step|exact I].
+Qed.
+
+(* ------------------------------------------------------------------ (b) uncached reads reflect the file *)
+Lemma s_kind_step st o : s_kind (fst (sstep st o)) = s_kind st.
+Proof.
+  destruct o; cbn [sstep]; try reflexivity.
+  - destruct (negb (is_float dt)); [reflexivity|].
+    destruct (match s_cache st with Some (k, d) => if dtype_eqb d dt then Some k else None | None => None end);
+      [reflexivity|]. destruct (spec_fresh st (Some dt)) as [[h r]|e]; [destruct c|]; reflexivity.
+  - destruct (spec_fresh st None) as [[h r]|e]; reflexivity.
+  - destruct (spec_slice st sl) as [[h r]|e]; reflexivity.
+  - destruct (s_last st); [|reflexivity]. destruct (o_wr _); reflexivity.
+  - destruct (s_expired st); [reflexivity|]. destruct (s_dcache st); [reflexivity|].
+    destruct (spec_fresh st None) as [[h r]|e]; [destruct c|]; reflexivity.
+Qed.
+
+(* which accesses are not served from a cache, and with which slicer *)
+Definition s_uncached (st : sstate) (o : op) : option slicer :=
+  match o with
+  | GetFdata c dt =>
+    if is_float dt then
+      match s_cache st with
+      | Some (k, d) => if dtype_eqb d dt then None else Some SFull
+      | None => Some SFull
+      end
+    else None
+  | AsArray => Some SFull
+  | Slice sl => Some sl
+  | GetData c => if s_expired st then None else match s_dcache st with Some _ => None | None => Some SFull end
+  | _ => None
+  end.
+
+Definition s_reflects (sh : list nat) (vals : list Z) (st : sstate) (o : op) (st' : sstate) (x : out) : Prop :=
+  forall sl r, s_uncached st o = Some sl -> x = OArr r ->
+    exists sh' off, sel_off sl sh = Some (sh', off) /\ r = length (objs (s_heap st))
+      /\ o_shape (get_obj (s_heap st') r) = sh'
+      /\ obj_vals (s_heap st') (get_obj (s_heap st') r) = firstn (size sh') (skipn off vals).
+
+Lemma s_reflects_step sh vals ndt sc mp st o :
+  s_kind st = SProxy sh vals ndt sc mp -> s_reflects sh vals st o (fst (sstep st o)) (snd (sstep st o)).
+Proof.
+  intros Ek.
+  assert (R : forall dt sl h r st', s_heap st' = h -> spec_read (s_heap st) sh vals ndt sc mp dt sl = inl (h, r) ->
+              exists sh' off, sel_off sl sh = Some (sh', off) /\ r = length (objs (s_heap st))
+                /\ o_shape (get_obj (s_heap st') r) = sh'
+                /\ obj_vals (s_heap st') (get_obj (s_heap st') r) = firstn (size sh') (skipn off vals)).
+  { intros dt sl h r st' Eh E. rewrite Eh. apply spec_read_cases in E as (sh' & off & Es & _ & [Hr _] & Hs & Hv).
+    exists sh', off. auto. }
+  intros sl r Hu Hx. destruct o; cbn [s_uncached] in Hu; try discriminate; cbn [sstep] in *.
+  - (* GetFdata *)
+    destruct (is_float dt); [|discriminate]. cbn [negb] in *.
+    assert (Miss : match s_cache st with Some (k, d) => if dtype_eqb d dt then Some k else None | None => None end = None
+                   /\ sl = SFull).
+    { destruct (s_cache st) as [[k d]|]; [destruct (dtype_eqb d dt); [discriminate|]|]; inversion Hu; auto. }
+    destruct Miss as [Miss ->]. rewrite Miss in *.
+    unfold spec_fresh in *. rewrite Ek in *.
+    destruct (spec_read (s_heap st) sh vals ndt sc mp (Some dt) SFull) as [[h r']|e] eqn:E; [|discriminate].
+    destruct c; cbn [fst snd] in *; inversion Hx; subst r'; eapply R; eauto.
+  - (* AsArray *)
+    inversion Hu; subst sl. unfold spec_fresh in *. rewrite Ek in *.
+    destruct (spec_read (s_heap st) sh vals ndt sc mp None SFull) as [[h r']|e] eqn:E; [|discriminate].
+    cbn [fst snd] in *; inversion Hx; subst r'; eapply R; eauto.
+  - (* Slice *)
+    inversion Hu; subst sl0. unfold spec_slice in *. rewrite Ek in *.
+    destruct (spec_read (s_heap st) sh vals ndt sc mp None sl) as [[h r']|e] eqn:E; [|discriminate].
+    cbn [fst snd] in *; inversion Hx; subst r'; eapply R; eauto.
+  - (* GetData *)
+    destruct (s_expired st); [discriminate|]. destruct (s_dcache st); [discriminate|].
+    inversion Hu; subst sl. unfold spec_fresh in *. rewrite Ek in *.
+    destruct (spec_read (s_heap st) sh vals ndt sc mp None SFull) as [[h r']|e] eqn:E; [|discriminate].
+    destruct c; cbn [fst snd] in *; inversion Hx; subst r'; eapply R; eauto.
+Qed.
+
+Definition c_uncached (st : cstate) (o : op) : option slicer :=
+  match o with
+  | GetFdata c dt =>
+    if is_float dt then
+      match c_fcache st with
+      | Some k => if dtype_eqb (o_dt (get_obj (c_heap st) k)) dt then None else Some SFull
+      | None => Some SFull
+      end
+    else None
+  | AsArray => Some SFull
+  | Slice sl => Some sl
+  | GetData c => if c_expired st then None else match c_dcache st with Some _ => None | None => Some SFull end
+  | _ => None
+  end.
+
+Lemma uncached_abs st o : s_uncached (abs st) o = c_uncached st o.
+Proof. destruct o; try reflexivity. cbn. destruct (is_float dt); [|reflexivity]. destruct (c_fcache st); reflexivity. Qed.
+
+(* the values a proxy denotes: the stored values under the spec it copied at construction *)
+Definition file_view (p : pspec) (f : file) : list Z :=
+  if scaledp p then scale_vals p f else firstn (size (p_shape p)) (f_vals f).
+
+Definition reflects (p : pspec) (f : file) (st : cstate) (o : op) (st' : cstate) (x : out) : Prop :=
+  forall sl r, c_uncached st o = Some sl -> x = OArr r ->
+    exists sh' off, sel_off sl (p_shape p) = Some (sh', off) /\ r = length (objs (c_heap st))
+      /\ o_shape (get_obj (c_heap st') r) = sh'
+      /\ obj_vals (c_heap st') (get_obj (c_heap st') r) = firstn (size sh') (skipn off (file_view p f)).
+
+Lemma reflects_all ops st p :
+  wf st -> c_dobj st = DProxy p -> (size (p_shape p) <= length (f_vals (c_file st)))%nat ->
+  c_all (reflects p (c_file st)) st ops.
+Proof.
+  intros W Ed Hlen.
+  assert (Ek : exists ndt sc mp, s_kind (abs st) = SProxy (p_shape p) (file_view p (c_file st)) ndt sc mp).
+  { unfold abs; cbn [s_kind]. rewrite Ed. unfold abs_kind, file_view.
+    replace (length (f_vals (c_file st)) <? size (p_shape p))%nat with false
+      by (symmetry; apply Nat.ltb_ge; exact Hlen).
+    destruct (scaledp p); eauto. }
+  destruct Ek as (ndt & sc & mp & Ek).
+  apply (all_transfer (s_reflects (p_shape p) (file_view p (c_file st))) (reflects p (c_file st))); [|exact W|].
+  - intros st0 o W0 H sl r Hu Hx. rewrite <- uncached_abs in Hu.
+    destruct (H sl r Hu) as (sh' & off & H1 & H2 & H3 & H4); [rewrite Hx; reflexivity|].
+    exists sh', off. auto.
+  - apply (s_all_lift (fun s => s_kind s = SProxy (p_shape p) (file_view p (c_file st)) ndt sc mp)); [|exact Ek].
+    intros s o Hk. split; [eapply s_reflects_step; eassumption|]. now rewrite s_kind_step.
+Qed.
+
+(* ------------------------------------------------------------------ (d) what a proxy returns is frozen *)
+Definition drop_hdr (ops : list op) : list op := filter (fun o => negb (is_hdr_op o)) ops.
+(* the outputs at the positions of the operations that are not header operations *)
+Definition outs_drop (ops : list op) (outs : list out) : list out :=
+  map snd (filter (fun p => negb (is_hdr_op (fst p))) (combine ops outs)).
+
+Lemma sstep_hdr st o : is_hdr_op o = true -> sstep st o = (st, ONone).
+Proof. destruct o; try discriminate; reflexivity. Qed.
+
+Lemma s_drop : forall ops st,
+  srun st (drop_hdr ops) = (fst (srun st ops), outs_drop ops (snd (srun st ops))).
+Proof.
+  induction ops as [|o r IH]; intros st; [reflexivity|].
+  rewrite (srun_cons st o r). cbn [fst snd]. unfold drop_hdr, outs_drop in *. cbn [filter combine fst].
+  destruct (is_hdr_op o) eqn:Eh; cbn [negb].
+  - rewrite (sstep_hdr st o Eh). cbn [fst snd]. apply IH.
+  - rewrite srun_cons. cbn [map snd fst]. rewrite IH. reflexivity.
+Qed.
+
+Lemma map_outs_drop f ops outs : map f (outs_drop ops outs) = outs_drop ops (map f outs).
+Proof.
+  unfold outs_drop. revert outs. induction ops as [|o r IH]; intros outs; [reflexivity|].
+  destruct outs as [|x xs]; [reflexivity|]. cbn [combine filter fst map].
+  destruct (negb (is_hdr_op o)); cbn [map snd]; now rewrite IH.
+Qed.
+
+Lemma abs_hdr_indep st h1 h2 : abs (with_orig (with_hdr st h1) h2) = abs st.
+Proof. reflexivity. Qed.
+Lemma wf_hdr_indep st h1 h2 : wf st -> wf (with_orig (with_hdr st h1) h2).
+Proof. intros W. exact W. Qed.
+
+Lemma proxy_frozen ops st h1 h2 :
+  wf st ->
+  map data_out (outs_drop ops (snd (crun st ops)))
+  = map data_out (snd (crun (with_orig (with_hdr st h1) h2) (drop_hdr ops))).
+Proof.
+  intros W.
+  destruct (run_refines ops st W) as [E1 _].
+  destruct (run_refines (drop_hdr ops) _ (wf_hdr_indep st h1 h2 W)) as [E2 _].
+  rewrite abs_hdr_indep, s_drop, E1 in E2. cbn [fst snd] in E2.
+  rewrite map_outs_drop. exact (f_equal snd E2).
+Qed.
+
+(* the proxy object itself never changes: its shape/dtype/slope/inter are those copied at construction *)
+Lemma c_all_lift (I : cstate -> Prop) (P : cstate -> op -> cstate -> out -> Prop) :
+  (forall st o, I st -> P st o (fst (cstep st o)) (snd (cstep st o)) /\ I (fst (cstep st o))) ->
+  forall ops st, I st -> c_all P st ops.
+Proof.
+  intros H. induction ops as [|o r IH]; intros st Hi; [exact Logic.I|].
+  destruct (H st o Hi) as [Hp Hi']. split; [exact Hp|apply IH, Hi'].
+Qed.
+
+Lemma cstep_dobj_file st o :
+  c_dobj (fst (cstep st o)) = c_dobj st /\ c_file (fst (cstep st o)) = c_file st.
+Proof.
+  destruct o; cbn [cstep]; try (split; reflexivity).
+  - destruct (negb (is_float dt)); [split; reflexivity|].
+    destruct (match c_fcache st with
+              | Some k => if dtype_eqb (o_dt (get_obj (c_heap st) k)) dt then Some k else None
+              | None => None end); [split; reflexivity|].
+    destruct (asanyarray st (Some dt)) as [[h r]|e]; [destruct c|]; split; reflexivity.
+  - destruct (asanyarray st None) as [[h r]|e]; split; reflexivity.
+  - destruct (getitem st sl) as [[h r]|e]; split; reflexivity.
+  - destruct (c_last st); [destruct (o_wr _)|]; split; reflexivity.
+  - destruct (c_expired st); [split; reflexivity|]. destruct (c_dcache st); [split; reflexivity|].
+    destruct (asanyarray st None) as [[h r]|e]; [destruct c|]; split; reflexivity.
+  - destruct (c_dobj st) eqn:E; cbn [fst]; (split; [exact E|reflexivity]).
+Qed.
+
+Lemma spec_frozen ops st p :
+  c_dobj st = DProxy p ->
+  c_all (fun st0 o st1 x => c_file st1 = c_file st /\
+           (o = ReadSpec -> x = OSpec (p_shape p) (p_dt p) (p_slope p) (p_inter p))) st ops.
+Proof.
+  intros Ed. apply (c_all_lift (fun s => c_dobj s = DProxy p /\ c_file s = c_file st)); [|auto].
+  intros s o [Hd Hf]. destruct (cstep_dobj_file s o) as [H1 H2]. split; [split|split]; try congruence.
+  intros ->. cbn [cstep]. rewrite Hd. reflexivity.
+Qed.
+
+(* ------------------------------------------------------------------ the two concrete facts *)
+Lemma own_array_and_cow_map :
+  (forall st o d, c_dobj st = DArr o -> o_dt (get_obj (c_heap st) o) = d ->
+                  asanyarray st (Some d) = inl (c_heap st, o)) /\
+  (forall st p, c_dobj st = DProxy p -> scaledp p = false -> p_mmap p = true -> f_gz (c_file st) = false ->
+     (size (p_shape p) <= length (f_vals (c_file st)))%nat ->
+     exists h r, asanyarray st (Some (p_dt p)) = inl (h, r) /\ r = length (objs (c_heap st))
+       /\ o_map (get_obj h r) = true /\ o_wr (get_obj h r) = true).
+Proof.
+  split.
+  - intros st o d Ed Et. unfold asanyarray. rewrite Ed, Et, dtype_eqb_refl. reflexivity.
+  - intros st p Ed Es Em Eg Hlen. unfold asanyarray, proxy_read. rewrite Ed. cbn [sel_off].
+    replace (length (f_vals (c_file st)) <? size (p_shape p))%nat with false
+      by (symmetry; apply Nat.ltb_ge; exact Hlen).
+    rewrite Es, dtype_eqb_refl, Em, Eg. cbn [andb negb].
+    set (v := firstn _ _).
+    exists (fst (alloc (c_heap st) v (p_shape p) (p_dt p) true true)),
+           (snd (alloc (c_heap st) v (p_shape p) (p_dt p) true true)).
+    split; [reflexivity|]. split; [reflexivity|]. rewrite alloc_get_new. split; reflexivity.
 Qed.
